@@ -119,28 +119,32 @@ with_relatives, render_raw, strip_raw = V.with_relatives, V.render_raw, V.strip_
 class C03:
     prop = "C03"
     lean_module = "Ogorek.Props.C03"
-    theorems = ["Ogorek.C03_roundtrip_bin", "Ogorek.rt_val", "Ogorek.C03_int", "Ogorek.parseDecimal_fmtInt", "Ogorek.toSigned_ofSigned_32",
-                "Ogorek.goEqual_strip", "Ogorek.assignAll_of_keysOK", "Ogorek.C03_string_p0", "Ogorek.pyquote_inv", "Ogorek.pyquote_no_lf"]
+    theorems = ["Ogorek.C03_roundtrip", "Ogorek.C03_roundtrip_bin", "Ogorek.rt_val", "Ogorek.C03_int", "Ogorek.parseDecimal_fmtInt",
+                "Ogorek.toSigned_ofSigned_32", "Ogorek.goEqual_strip", "Ogorek.assignAll_of_keysOK", "Ogorek.C03_string_p0",
+                "Ogorek.C03_unicode_p0", "Ogorek.pyquote_inv", "Ogorek.pyquote_no_lf", "Ogorek.rue_inv", "Ogorek.rue_no_lf",
+                "Ogorek.encodeRune_of_exact", "Ogorek.decodeRune_exact", "Ogorek.C03_isprint_lf"]
     trusted_base = TB_COMMON + ["strconv float formatting/parsing as modelled (exact-rational shortest digits, correct rounding); strconv.IsPrint table regenerated from the toolchain"]
-    level_text = ("Lean theorem C03_roundtrip_bin, for ALL canonical values (None, bool, int64, *big.Int, float64 of any bit pattern, string, "
-                  "ByteString, Bytes, []byte, Class, and lists, Tuples, Calls, Refs, builtin maps and Dicts nested to any depth), protocols "
-                  "1-5, both StrictUnicode and both PyDict settings, from any decoder state: if Encode returns no error, Decode of exactly the "
+    level_text = ("Lean theorem C03_roundtrip, for ALL canonical values (None, bool, int64, *big.Int, float64, string, ByteString, Bytes, "
+                  "[]byte, Class, and lists, Tuples, Calls, Refs, builtin maps and Dicts nested to any depth), ALL protocols 0-5, both "
+                  "StrictUnicode and both PyDict settings, from any decoder state: if Encode returns no error, Decode of exactly the "
                   "bytes written succeeds, consumes all of them and returns a value identical in type and content (ByteString -> string "
                   "without StrictUnicode, map <-> Dict by mode, big ints as fresh objects) - by mutual structural induction over the value "
                   "(rt_val: every fragment of the encoder's output parses as instructions that push exactly one representing value and "
                   "leave stack, memo and protocol alone), using the number lemmas (C03_int, parseDecimal_fmtInt, toSigned_ofSigned_32), the "
-                  "Latin-1 lemma for Bytes below protocol 3, and for maps/Dicts that equality and hashing ignore big-int identity "
-                  "(goEqual_strip) so DICT rebuilds the entries (assignAll_of_keysOK). Hypotheses: payloads < 2^32 bytes, keys of one "
-                  "literal pairwise different for the decoder's table. Protocol 0, STRING form: for EVERY byte string the quoting codec is "
-                  "inverted by the decoder's string-escape codec and its output holds no newline, so S\"...\" carries any string / "
-                  "ByteString exactly (pyquote_inv, pyquote_no_lf, C03_string_p0; via a classification of utf8.DecodeRune's answers). "
-                  "PARTIAL: the rest of protocol 0 (raw-unicode-escape codec, float text, the composition), *big.Int keys of "
-                  "builtin maps, and the normal forms of non-canonical inputs are not in the theorem; they are tied by correspondence: "
-                  "decode(encode(v)) is computed by the implementation and by the model for every generated value x protocol x mode and "
-                  "compared with each other and with the documented normal form; the argument is re-rendered after Encode to detect mutation.")
+                  "Latin-1 lemma for Bytes below protocol 3, that equality and hashing ignore big-int identity (goEqual_strip) so DICT "
+                  "rebuilds the entries (assignAll_of_keysOK), and for protocol 0 the two text codecs proved inverse for EVERY byte "
+                  "string / every valid UTF-8 text with newline-free output (pyquote_inv, pyquote_no_lf, rue_inv, rue_no_lf, from an exact "
+                  "description of utf8.DecodeRune and encodeRune_of_exact: re-encoding a decoded rune gives back its bytes). Hypotheses: "
+                  "payloads < 2^32 bytes; keys of one literal pairwise different for the decoder's table; LF not printable in the IsPrint "
+                  "table (C03_isprint_lf, regenerated each run); and, at protocol 0 only, FloatTextOK for each float in the value: "
+                  "its %g text is newline-free and ParseFloat returns the same float - strconv's shortest-round-trip property, NOT "
+                  "proved (C03_roundtrip_bin: no such hypothesis from protocol 1 on). PARTIAL: that float-text hypothesis, *big.Int keys "
+                  "of builtin maps, and the normal forms of non-canonical inputs are tied by correspondence: decode(encode(v)) is computed "
+                  "by the implementation and by the model for every generated value x protocol x mode and compared with each other and "
+                  "with the documented normal form; the argument is re-rendered after Encode to detect mutation.")
     level_note = ("trusted: Lean kernel + standard axioms; encoder and decoder models (exact agreement required on every explored case); float "
                   "text conversion (strconv) as modelled by exact rational arithmetic")
-    technique = "Lean 4 proof (mutual structural induction: Encode→Decode round trip for protocols 1-5) + differential correspondence of decode∘encode on generated values"
+    technique = "Lean 4 proof (mutual structural induction: Encode→Decode round trip for protocols 0-5, text codecs proved inverse) + differential correspondence of decode∘encode on generated values"
     rule = ("canonical values for each decoder configuration (None, bool, int64, *big.Int, float64 incl. NaN/-0/Inf/denormals, string, "
             "ByteString, Bytes, []byte, []any, Tuple, map/Dict incl. NaN / -0 / big keys, Class, Call, Ref) nested to depth 4, and "
             "non-canonical relatives (int8..int32, int, uint8..uint64 incl. > MaxInt64, float32, pointers, nil, map<->Dict across "
@@ -342,21 +346,23 @@ ARGMAP = {"none": None}
 class C12:
     prop = "C12"
     lean_module = "Ogorek.Props.C12"
-    theorems = ["Ogorek.C12_conforms_bin", "Ogorek.scans_val", "Ogorek.scanLoop_run", "Ogorek.C12_reject", "Ogorek.C12_facts"]
+    theorems = ["Ogorek.C12_conforms", "Ogorek.C12_conforms_bin", "Ogorek.scans_val", "Ogorek.scanLoop_run", "Ogorek.C12_reject", "Ogorek.C12_facts"]
     trusted_base = TB_COMMON + ["the opcode table of Ogorek/Opcodes.lean (transcribed from pickletools; diffed against pickletools.opcodes of CPython 3.11 on every run)"]
-    level_text = ("Lean theorem C12_conforms_bin: for EVERY value (any nesting; application structs, unsigned ints, maps and Dicts included) "
-                  "with payloads < 2^32 bytes and every protocol p in 1..5, if Encode returns no error its output passes the independent "
+    level_text = ("Lean theorem C12_conforms: for EVERY value (any nesting; application structs, unsigned ints, maps and Dicts included) "
+                  "with payloads < 2^32 bytes and EVERY protocol p in 0..5, if Encode returns no error its output passes the independent "
                   "opcode scanner (Ogorek/Opcodes.lean: opcode -> introducing protocol, argument layout, stack effect): it begins with PROTO p "
                   "exactly when p >= 2 and holds no other PROTO, every opcode was introduced in a protocol <= p, the stack discipline holds "
                   "at every opcode, and the single STOP at the very end finds exactly one object - by mutual structural induction over the "
                   "value (scans_val: each fragment scans as table opcodes of protocols <= p with net effect 'push one object') and a "
-                  "run lemma for the scanner (scanLoop_run). A protocol outside 0-5 is rejected with nothing written (C12_reject); "
-                  "highestProtocol in the source is the model's (C12_facts). PARTIAL: protocol 0 (needs newline-freeness of float text and "
-                  "of the two text codecs' output) is not in the theorem; it is decided per run by scanning the IMPLEMENTATION's bytes "
+                  "run lemma for the scanner (scanLoop_run); the text lines of protocol 0 are newline-free because the two codecs' outputs "
+                  "are (pyquote_no_lf, rue_no_lf, proved) and LF is not printable in the regenerated IsPrint table. A protocol outside 0-5 "
+                  "is rejected with nothing written (C12_reject); highestProtocol in the source is the model's (C12_facts). PARTIAL: at "
+                  "protocol 0 the theorem assumes that the %g text of each float in the value holds no newline (a property of strconv, not "
+                  "proved; C12_conforms_bin needs no such hypothesis from protocol 1 on). Tie: the IMPLEMENTATION's bytes are scanned "
                   "with the same scanner (table diffed against pickletools.opcodes each run) and cross-checked with pickletools.genops, "
                   "while the model must emit the same chunks.")
     level_note = ("trusted: Lean kernel + standard axioms; encoder model; the transcribed opcode table (checked against CPython's pickletools on every run)")
-    technique = "Lean 4 proof (structural induction: the encoder's output passes an independent opcode-table scanner for protocols 1-5) + scan of the implementation's bytes with the same table, cross-checked by pickletools.genops"
+    technique = "Lean 4 proof (structural induction: the encoder's output passes an independent opcode-table scanner for protocols 0-5) + scan of the implementation's bytes with the same table, cross-checked by pickletools.genops"
     rule = ("values of the documented encoder table (incl. uint, typed relatives, ByteString/string in both modes, Calls, Refs, persistent "
             "ids, every size class 0/1/255/256/65536) x protocols -1..7 x StrictUnicode; the implementation's output is scanned with the "
             "Lean scanner (opcode -> introducing protocol, argument layout, stack effect) and with pickletools.genops; distinct = distinct "
